@@ -3,6 +3,7 @@
 # applies a change to a scratch copy of /repo and runs the named checks against it (VERIF_REPO)
 set -u
 S=/tmp/vmut-$$
+rm -rf /verif/build/evidence.keep; cp -r /verif/evidence /verif/build/evidence.keep 2>/dev/null
 mkdir -p $S && cp -r /repo/libmspack /repo/cabextract $S/ 2>/dev/null
 if [ "$1" = "-e" ]; then sed -i -e "$2" "$S/$3"; shift 3; else (cd $S && patch -p1 -s < "$1") || { echo "patch failed"; rm -rf $S; exit 2; }; shift; fi
 [ "${1:-}" = "--" ] && shift
@@ -10,5 +11,7 @@ for p in "$@"; do
   echo "### $p on mutant"; VERIF_REPO=$S /verif/bin/check $p 2>&1 | tail -8; echo "exit=$?"
 done
 rm -rf $S
+# evidence written while testing a mutant is not evidence about /repo
+rm -rf /verif/evidence; mv /verif/build/evidence.keep /verif/evidence 2>/dev/null
 # restore the generated files for the real tree
 python3 /verif/translate/translate.py >/dev/null
